@@ -362,7 +362,7 @@ def main(module, argv=None):
             if s:
                 fuc[s["qualname"]] = s
         evidence = {
-            "property_id": prop, "tier": a.tier, "seed": seed, "level": "proof",
+            "property_id": prop, "tier": a.tier, "seed": seed, "level": getattr(module, "LEVEL", "proof"),
             "coverage": {
                 "obligations": len(results), "discharged": discharged,
                 "checker_cmd": f"./vcheck {prop} --tier {a.tier}",
